@@ -336,6 +336,27 @@ def handle (op : String) (fs : List (String × String)) : String :=
     | some fm, some gs => ";".intercalate (gs.map fun g =>
         showRectQ (match g with | none => ⟨0, 0, 0, 0⟩ | some q => Spec.imageBox (Spec.pdfMatrix fm) (cornersQ q)))
     | _, _ => "bad-case"
+  else if op == "metrics.dcid" then
+    -- D: the queries of a CID-keyed CFF font against the geometric definitions (FD matrix first,
+    -- font matrix second, then ×1000)
+    match (getField fs "fm").bind parseMat, (getField fs "fds").map (·.splitOn ";"),
+          (getField fs "sel").bind parseNatList, (getField fs "g").bind parseGlyphsQ,
+          (getField fs "w").bind parseRats with
+    | some fm, some fdStrs, some sel, some gs, some ws =>
+      match fdStrs.mapM parseMat with
+      | none => "bad-case"
+      | some fds =>
+        let fdOf (i : Nat) : Mat := fds.getD (sel.getD i 0) (Mat.scale 1)
+        let boxes := (List.range gs.length).map fun i =>
+          match gs.getD i none with
+          | none => RectQ.zero
+          | some q => Spec.imageBoxF (Spec.cidImage (fdOf i) fm) (cornersQ q)
+        "gp=" ++ ";".intercalate (boxes.map showRectQ) ++
+        "|fp=" ++ showRectQ (fontBBoxPDFLoop boxes true RectQ.zero) ++
+        "|gw=" ++ intsToString ((List.range ws.length).map fun i => q20 (Spec.cidWidthPDF (fdOf i) fm (ws.getD i 0))) ++
+        "|pw=" ++ intsToString (ws.map fun w => q20 (w * fm.a)) ++
+        "|dw=" ++ intsToString (ws.map q20) ++ "|map=nil"
+    | _, _, _, _, _ => "bad-case"
   else if op == "metrics.wcffq" then
     match (getField fs "w").bind parseRats with
     | some ws =>
